@@ -54,6 +54,9 @@ class Row:
                       "row `%s`: %s" % (self.name, what), span=span)
 
     def expect_eq(self, what, got, want, eff=None, sub=""):
+        if want is None:
+            self.fail("%s cannot be compared: the expected term is unknown (handle field role missing)" % what, eff, sub)
+            return False
         if got is None or as_poly(got) != as_poly(want):
             self.fail("%s is %s, the Vec model requires %s" % (what, got, want), eff, sub)
             return False
@@ -289,6 +292,8 @@ def r_formula(ctx):
                 s = slot_of(v)
                 if not s or s[1] is None:
                     row.fail("value pointer is not a vector slot")
+                elif fld("index") is None:
+                    row.fail("the handle does not record its index at creation")
                 else:
                     row.expect_eq("value slot", s[1], fld("index"))
             row.done()
@@ -301,6 +306,8 @@ def r_formula(ctx):
             if nidx == 0:
                 if real_mutations(I):
                     row.fail("pop must not touch the vector on consumption")
+            elif "element" in roles and fld("last_index") is None:
+                row.fail("the handle does not record the last index at creation")
             elif "element" in roles:
                 # swap_remove
                 row.expect_eq("final length", fl, fld("last_index"), st, "len")
@@ -316,6 +323,8 @@ def r_formula(ctx):
                         row.fail("copy destination is not the removed element's slot", c, "copy-dst")
                     cnt = c["n"] if c["ety"] != "u8" else (div_atom(c["n"], s[2]) if s and s[2] else None)
                     row.expect_eq("copied elements", cnt, ONE, c, "copy-count")
+            elif fld("index") is None or fld("last_index") is None:
+                row.fail("the handle does not record its index / last index at creation; consume cannot be matched against the Vec model")
             else:
                 # remove
                 row.expect_eq("final length", fl, fld("last_index"), st, "len")
@@ -441,6 +450,8 @@ def r_formula(ctx):
     # ------------------------------------------------------------------ capacity rows
     _capacity_rows(res, ctx, arms)
     _clone_row(res, ctx, arms)
+    _into_range_row(res, ctx, arms)
+    _backend_growth_rows(res, ctx, arms)
     return res
 
 
@@ -714,3 +725,147 @@ def _clone_row(res, ctx, arms):
         if fm.get(("len",)) != L0:
             row.fail("the clone's length is %s, expected LEN(source)" % (fm.get(("len",)),), sub="len")
         row.done()
+
+
+# ---------------------------------------------------------------------------------------------------- into_range
+
+def _into_range_row(res, ctx, arms):
+    """per Bound variant: start = i | i+1 | 0 ; end = i+1 | i | len ; the asserts are checked by R-BOUNDS at the callers"""
+    p = "into_range"
+    want = {("start", "Included"): lambda i, L: i, ("start", "Excluded"): lambda i, L: i + ONE, ("start", "Unbounded"): lambda i, L: Poly(),
+            ("end", "Included"): lambda i, L: i + ONE, ("end", "Excluded"): lambda i, L: i, ("end", "Unbounded"): lambda i, L: L}
+    for tt, I in arms(p):
+        fn = ctx.fn(p)
+        L = Poly.atom(("param", 1))
+        # the locals that become the returned Range { start, end }
+        range_locals = {}
+        for node in I.g.nodes:
+            if node.inst is not I.g.entry:
+                continue
+            for s in node.data["stmts"]:
+                rv = s.get("rv", {})
+                if rv.get("k") == "agg" and rv.get("adt") == "core::ops::Range":
+                    for fname, a in zip(rv["fields"], rv["args"]):
+                        pl = a.get("copy") or a.get("move")
+                        if pl and not pl["proj"]:
+                            range_locals[pl["local"]] = fname
+        # copies: `_tmp = start` feeding the aggregate
+        changed = True
+        while changed:
+            changed = False
+            for node in I.g.nodes:
+                if node.inst is not I.g.entry:
+                    continue
+                for s in node.data["stmts"]:
+                    rv = s.get("rv", {})
+                    if "dst" in s and not s["dst"]["proj"] and s["dst"]["local"] in range_locals and rv.get("k") == "use":
+                        pl = rv["args"][0].get("copy") or rv["args"][0].get("move")
+                        if pl and not pl["proj"] and pl["local"] not in range_locals:
+                            # only plain renames of usize locals defined in several arms
+                            range_locals[pl["local"]] = range_locals[s["dst"]["local"]]
+                            changed = True
+
+        def variant_of(facts, which):
+            for f in facts:
+                if f[0] == "eq0":
+                    for a in f[1].atoms():
+                        if isinstance(a, tuple) and a[0] == "discr" and isinstance(a[1], tuple) and a[1][0] == "bound" \
+                                and (a[1][1] == "start_bound") == (which == "start"):
+                            k = -f[1].m.get((), 0) * f[1].m.get((a,), 1)
+                            return {0: "Included", 1: "Excluded", 2: "Unbounded"}.get(abs(k))
+            return None
+        seen = {}
+        for gid, st in sorted(I.in_state.items()):
+            node = I.g.nodes[gid]
+            if node.inst is not I.g.entry:
+                continue
+            cur = st.copy()
+            for si, s in enumerate(node.data["stmts"]):
+                if "dst" not in s:
+                    continue
+                rv = s["rv"]
+                if not s["dst"]["proj"] and s["dst"]["local"] in range_locals and rv["k"] in ("use", "bin"):
+                    which = range_locals[s["dst"]["local"]]
+                    variant = variant_of(st.facts, which)
+                    v = I.eval_rvalue(cur, node.inst, rv, node, si, s.get("line"))
+                    if isinstance(v, Poly) and variant:
+                        seen.setdefault((which, variant), []).append((v, s.get("line")))
+            tm = node.data["term"]
+            if tm["k"] == "call" and not tm["dest"]["proj"] and tm["dest"]["local"] in range_locals:
+                which = range_locals[tm["dest"]["local"]]
+                variant = variant_of(st.facts, which)
+                cu = [e for e in I.all_effects(("CHECKED_UNWRAP",)) if e.gid == gid]
+                if cu and variant:
+                    v = I.arith(cu[0]["op"], cu[0]["a"], cu[0]["b"])
+                    seen.setdefault((which, variant), []).append((v, tm.get("line")))
+        for key, fnw in sorted(want.items()):
+            row = Row(res, ctx, "into_range:%s/%s" % key, p, tt, I)
+            vals = seen.get(key)
+            if not vals:
+                row.fail("no value is computed for the %s bound in the %s case" % key)
+                row.done()
+                continue
+            # the value finally assigned in that arm: the last one
+            v, line = vals[-1]
+            ats = [a for a in v.atoms() if isinstance(a, tuple) and a[0] == "init"]
+            i = Poly.atom(ats[0]) if ats else Poly()
+            w = fnw(i, L)
+            if v != w and not (key[1] == "Unbounded" and v == w):
+                row.fail("%s bound in the %s case is %s, the Vec model requires %s" % (key[0], key[1], v, w if ats or key[1] == "Unbounded" else "i / i+1"))
+            row.done()
+
+
+# ---------------------------------------------------------------------------------------------------- backend growth policy
+
+def _backend_growth_rows(res, ctx, arms):
+    fx = ctx.fx
+    # HeapMem::expand -> resize(max(2*size, size+additional))
+    for im in fx.impls_of("mem::Mem"):
+        if im["self_ty"].get("path") != "mem::heap::HeapMem":
+            continue
+        items = {it["name"]: it["path"] for it in im["items"]}
+        p = items.get("expand")
+        if not p:
+            res.coverage_lost("mem::heap::HeapMem", "Mem::expand override not found (growth would panic)")
+            continue
+        for tt, I in arms(p):
+            row = Row(res, ctx, "heap-expand", p, tt, I)
+            ent = [e for e in I.all_effects(("ENTER",)) if e["callee"].endswith("::resize")]
+            size = Poly.atom(("init", (("P", 1), ("size",)), 0))
+            add = Poly.atom(("param", 2))
+            if len(ent) != 1:
+                row.fail("expand must resize exactly once")
+            else:
+                n = as_poly(ent[0]["args"][1])
+                ats = [a for a in n.atoms() if isinstance(a, tuple) and a[0] == "max"]
+                if n != Poly.atom(ats[0]) if ats else True:
+                    row.fail("new size is %s, expected max(2 x size, size + additional)" % n, ent[0])
+                else:
+                    ops = [ats[0][1], ats[0][2]]
+                    if size + add not in ops:
+                        row.fail("the requested size (size + additional) is not a lower bound of the new size %s" % n, ent[0], "request")
+                    other = [o for o in ops if o != size + add]
+                    dbl = other and (other[0] == size * Poly.const(2) or any(isinstance(a, tuple) and a[0] == "saturating_mul" for a in other[0].atoms()))
+                    if not dbl:
+                        row.fail("growth is not geometric: the doubling term is missing from %s (reallocations would be linear in the number of pushes)" % n, ent[0], "doubling")
+            row.done()
+    # default expand_exact -> resize(size + additional)
+    p = "mem::MemResizable::expand_exact"
+    for tt, I in arms(p):
+        row = Row(res, ctx, "expand_exact", p, tt, I)
+        rs = I.all_effects(("RESERVE",))
+        if len(rs) != 1 or rs[0]["how"] != "resize":
+            row.fail("expand_exact must resize exactly once")
+        else:
+            row.expect_eq("new size", rs[0]["n"], as_poly(rs[0]["cap"]) + Poly.atom(("param", 2)), rs[0])
+        row.done()
+    # with_capacity: build_with_size -> resize(capacity)
+    for im in fx.impls_of("mem::MemBuilderSizeable"):
+        items = {it["name"]: it["path"] for it in im["items"]}
+        p = items.get("build_with_size")
+        for tt, I in arms(p) if p else []:
+            row = Row(res, ctx, "build_with_size", p, tt, I)
+            ent = [e for e in I.all_effects(("ENTER",)) if e["callee"].endswith("::resize")]
+            if len(ent) != 1 or as_poly(ent[0]["args"][1]) != Poly.atom(("param", 3)):
+                row.fail("with_capacity must resize the fresh storage to exactly the requested capacity")
+            row.done()
